@@ -88,6 +88,8 @@ class World:
         self.bu = 0
         self.extra_links = []                 # links created beyond the pool (projected as NL+1..)
         self.vertex_cls = vertex_cls
+        # aliased-uid pools: links, too, all carry one caller-supplied uid
+        self.link_kw = {"uid": 515151} if isinstance(vertex_cls, (list, tuple)) and getattr(vertex_cls[0], "__name__", "") == "make" else {}
         for _ in range(init["bv"]):
             self._reg_vertex(self._new_vertex())
         for _ in range(init["bu"]):
@@ -157,9 +159,9 @@ class World:
     def _do(self, op, k, a, b):
         O, L = self.o, self.L
         if op == "new":
-            return [self._reg_link(KINDS[k](O(a[0]), O(a[1])))]
+            return [self._reg_link(KINDS[k](O(a[0]), O(a[1]), **self.link_kw))]
         if op == "lnew":
-            return [self._reg_link(KINDS[k](vertices=[O(x) for x in a]))]
+            return [self._reg_link(KINDS[k](vertices=[O(x) for x in a], **self.link_kw))]
         if op == "setv":
             if a[1] == 1:
                 L[a[0]].v1 = O(a[2])
